@@ -240,6 +240,7 @@ class Ctx:
         self.script = []      # stub outputs in call order: (kind, [terms])
         self.log = []         # sampler calls recorded by SymRNG: (kind, args...)
         self.unknown_feas = 0
+        self.sub_paths = 0
         self.last = None
         self.inv_log = []     # (A, inv(A)) pairs created on this path
         self.sqrt_args = []   # argument terms of the uninterpreted sqrt that take part in comparisons
@@ -399,6 +400,62 @@ class Ctx:
         self._push(cond, lin, guess)
         return guess
 
+    # ---- isolated blocks: a nested exploration whose branches do not multiply with the rest of the path
+    _SNAP_FIELDS = ('trace', 'pc', 'pc_lin', 'assumes', 'assumes_lin', 'script', 'log', 'inv_log', 'sqrt_args')
+
+    def _base(self):
+        b = {f: len(getattr(self, f)) for f in self._SNAP_FIELDS}
+        b.update(names=dict(self.names), vars=dict(self.vars), model=self.model, memo=dict(self.memo),
+                 pos=dict(self.pos), notpos=dict(self.notpos))
+        return b
+
+    def _restore(self, b):
+        for f in self._SNAP_FIELDS:
+            del getattr(self, f)[b[f]:]
+        self.names = dict(b['names'])
+        self.vars = dict(b['vars'])
+        self.model = b['model']
+        self.memo = dict(b['memo'])
+        self.pos = dict(b['pos'])
+        self.notpos = dict(b['notpos'])
+
+    def snapshot(self, block=None):
+        sn = Snap()
+        for f in ('trace', 'pc', 'pc_lin', 'assumes', 'assumes_lin', 'script', 'inv_log'):
+            setattr(sn, f, list(getattr(self, f)))
+        sn.vars = dict(self.vars)
+        sn.block = block
+        return sn
+
+    def isolated(self, fn, block, on_sub=None):
+        """explore fn() as a nested decision tree from the current state; afterwards the path continues as if fn had
+        not been run (fn must work on copies).  Each completed sub-path is reported to on_sub(snapshot)."""
+        key = (tuple(self.trace), block)
+        if key in DONE_BLOCKS:
+            return
+        base = self._base()
+        main_prefix, main_pending = self.prefix, self.pending
+        local = [list(self.trace)]
+        try:
+            while local:
+                pre = local.pop()
+                self._restore(base)
+                self.prefix, self.pending = pre, local
+                try:
+                    fn()
+                except PathAbort:
+                    continue
+                self.sub_paths += 1
+                if on_sub is not None:
+                    on_sub(self.snapshot(block))
+        finally:
+            self._restore(base)
+            self.prefix, self.pending = main_prefix, main_pending
+        DONE_BLOCKS.add(key)
+
+    def view(self, sn):
+        return _View(self, sn)
+
     def concretize(self, sv, lo=None, hi=None):
         """fork over the feasible integer values of sv in ascending order (deterministic replay)"""
         e = z3.simplify(sv.e if isinstance(sv, SV) else sv)
@@ -451,6 +508,31 @@ class Ctx:
         self.pc_lin.append(c)
         self._sat_by_model(c)
         return values[idx]
+
+
+class Snap:
+    """lists of a (sub-)path at its end; obligations stated on it index into these lists"""
+    __slots__ = ('trace', 'pc', 'pc_lin', 'assumes', 'assumes_lin', 'script', 'inv_log', 'vars', 'block')
+
+
+class _View:
+    def __init__(self, ctx, sn):
+        self.ctx, self.sn = ctx, sn
+
+    def __enter__(self):
+        c, sn = self.ctx, self.sn
+        self.saved = {f: getattr(c, f) for f in ('trace', 'pc', 'pc_lin', 'assumes', 'assumes_lin', 'script', 'inv_log',
+                                                 'vars')}
+        for f in self.saved:
+            setattr(c, f, getattr(sn, f))
+        return c
+
+    def __exit__(self, *a):
+        for f, v in self.saved.items():
+            setattr(self.ctx, f, v)
+
+
+DONE_BLOCKS = set()   # (main trace at block start, block tag) of isolated blocks that were explored completely
 
 
 def cur():
@@ -800,7 +882,7 @@ def explore(fn, max_paths=100000, on_path=None, deadline=None, shard=None, shard
     npaths = 0
     aborted = 0
     t0 = time.time()
-    agg = dict(checks=0, solver_time=0.0, concretized=0, transitions=0, unknown_feas=0)
+    agg = dict(checks=0, solver_time=0.0, concretized=0, transitions=0, unknown_feas=0, sub_paths=0)
     complete = True
     while pending:
         if npaths >= max_paths or (deadline is not None and time.time() > deadline):
@@ -837,6 +919,7 @@ def explore(fn, max_paths=100000, on_path=None, deadline=None, shard=None, shard
         agg['concretized'] += ctx.concretized
         agg['transitions'] += len(ctx.trace)
         agg['unknown_feas'] += ctx.unknown_feas
+        agg['sub_paths'] += ctx.sub_paths
     agg['paths'] = npaths
     agg['aborted'] = aborted
     agg['complete'] = complete
